@@ -103,6 +103,14 @@ func H_C14(scheme, n int) {
 	}
 	vAssert("scheme-type", u.URIType == want)
 	uriWalk(buf, &u)
+	// the numeric port is the decimal value of the port text
+	if u.Port.Len > 0 && u.Port.Len <= 6 {
+		pt := u.Port.Get(buf)
+		ref, sat := refDec(pt, 65535)
+		vAssert("port-number-is-port-text", vOr(!vAllDigits(pt), vAnd(!sat, uint64(u.PortNo) == ref)))
+	} else if u.Port.Len == 0 {
+		vAssert("no-port-no-number", u.PortNo == 0)
+	}
 	// bracketed host keeps its brackets
 	if u.Host.Len > 0 {
 		h := u.Host.Get(buf)
